@@ -1901,9 +1901,7 @@ class TrajectoryStore:
                 )
             case (False, True, False):
                 # ThrustModeValues
-                if not field.required and all(
-                    var[index, :] == var.get_fill_value()
-                ):
+                if not field.required and all(var[index, :] == var.get_fill_value()):
                     return None
                 return ThrustModeValues(
                     {tm: var[index, ti] for ti, tm in enumerate(ThrustMode)}
